@@ -7,6 +7,7 @@ violation; R3c stress run; R4 Trace_EpochSet judges replays and the stress run."
 import json, os, re
 from core import Inconclusive, sha, REPO
 from props.epochops import run_epochops
+from props.watcher import run_watcher
 
 RULES = [{"kind": "fieldtype", "struct": "MultiEpoch", "field": "mu", "new": "verifRWMutex", "keepImport": "sync"}]
 
@@ -158,6 +159,9 @@ def run(ctx):
     # ---- growth: sequential meaning of the epoch set + the --watch handler (EpochOps.tla)
     if not ctx.replay or ctx.replay.get("sig", {}).get("op") == "epochops":
         run_epochops(ctx, q)
+    # ---- the --watch dispatch loop (Watcher.tla) on the real onFileChanged
+    if not ctx.replay or ctx.replay.get("sig", {}).get("op") == "watch":
+        run_watcher(ctx, q)
     if model_viol:
         ctx.extra["model_invariants_violated"] = model_viol
     if unbalanced:
